@@ -163,7 +163,7 @@ PROPS = {
     "C12": {
         "claimed": True,
         "technique": "TLA+ definition of satisfaction (Sat) enumerated by TLC into the complete decision table within bounds; every row replayed on all evaluators and lookup forms",
-        "level_text": "spec/MCRelSat.tla defines Sat over fields of entries of alternatives with operators and version ranks; TLC enumerates every field shape x operator x installed assignment and prints the expected answer per field and per entry; each row is evaluated by the lossless Relations/Entry evaluators and the lossy Relations/Relation evaluators through the map, closure and single-pair lookups, along two concrete version chains (epochs, revisions, '~').",
+        "level_text": "spec/MCRelSat.tla defines Sat over fields of entries of alternatives with operators and version ranks; TLC enumerates every field shape x operator x installed assignment and prints the expected answer per field and per entry; each row is evaluated by the lossless Relations/Entry evaluators and the lossy Relations/Relation evaluators through the map, closure and single-pair lookups, along nine concretisations of the version chain (epochs, revisions, '~', binary rebuilds, names that extend or case-vary one another), each field also folded inside its relations.",
         "level_note": "bounded: <= 2 entries x <= 2 alternatives (plus 3 alternatives / 3 entries) over 2 packages, installed in {absent, lower, equal, higher}, nine concretisations of the version chain (epochs, revisions, binary rebuilds, case-variant namesakes), each field also folded inside its relations; debversion's ordering of the chains is checked to be ascending and otherwise trusted",
         "stages": [REL_SAT],
         "rule": "complete decision table: field shape x (package, operator, required rank) per alternative x installed rank per package; distinct = distinct (field, assignment)",
@@ -203,7 +203,7 @@ PROPS = {
     "C08": {
         "claimed": True,
         "technique": "TLA+ list model of a lossy paragraph (list laws checked by TLC); every history edge replayed on the real paragraph; printed text re-read with both readers at every state",
-        "level_text": "spec/MCLossyPara.tla models a lossy paragraph as the ordered list it is and set/insert/remove with the list semantics of Deb822EditP; TLC checks the list laws and enumerates all histories to the depth bound from six base paragraphs over three names (one differing from another by case only); the harness replays each on lossy::Paragraph, compares the field list, get, len after every step, and prints the resulting paragraph (and a two-paragraph document) and reads it back with the lossy and the lossless reader.",
+        "level_text": "spec/MCLossyPara.tla models a lossy paragraph as the ordered list it is and set/insert/remove with the list semantics of Deb822EditP; TLC checks the list laws and enumerates all histories to the depth bound from six base paragraphs over three names (one differing from another by case only); the harness replays each on lossy::Paragraph, compares the field list, get, len after every step, and prints the resulting paragraph (and documents of 2-5 paragraphs; a sample also with value lines of 1400-70000 bytes) and reads it back with the lossy and the lossless reader.",
         "level_note": "bounded: histories <= 3 operations, <= 4 fields, 3 names (one a case variant), 6 value shapes (single line, several lines, empty, empty first line, trailing blanks / ':' / '#', non-ASCII with ':' and '-' continuation lines) x 3 concretisations",
         "stages": [{"kind": "tlc_replay", "name": "lossy_para_edges", "module": "MCLossyPara.tla", "cfg": "MCLossyPara.cfg", "stage": "lossy_para", "coverage": False,
                     "consts": {"quick": {"Depth": 2, "MaxF": 4}, "thorough": {"Depth": 3, "MaxF": 5}},
@@ -239,7 +239,7 @@ PROPS = {
     "C07": {
         "claimed": True,
         "technique": "TLA+ P-layer on the line representation (Deb822WrapP: order, values, comment anchors, indentation, separation, re-read, idempotence); TLC enumerates documents x settings, every real application is recorded and judged by TLC (trace validation)",
-        "level_text": "spec/MCDeb822Wrap.tla enumerates ten document layouts (comments before/between/after fields and paragraphs, multi-line values with tab/space indents, empty first line, duplicate names, blank runs, missing final newline) x 216 settings (indentation 1/4/field-name length, immediate_empty_line, one-liner limit none/8/200, paragraph and field sorting, formatter none/identity/splitting); the harness applies the real Deb822/Paragraph/Entry rebuilders (and Control::wrap_and_sort to control files with relation fields, Uploaders, substitution variables; and random settings to repository documents), records before/after/second application, and TLC evaluates the eight-conjunct property relation of spec/Deb822WrapP.tla on every event.",
+        "level_text": "spec/MCDeb822Wrap.tla enumerates 18 document layouts (comments before/between/after fields and paragraphs, multi-line values with tab/space indents, empty first line, blank continuation lines, duplicate names and identical duplicate fields, blank runs, missing final newline, a 40-paragraph list, a 40-field paragraph; each also with CR as its line break) x about 300 settings each (indentation 1/4/40/300/field-name length, immediate_empty_line, one-liner limit none/8/200, paragraph and field sorting, formatter none/identity/splitting); the harness applies the real Deb822/Paragraph/Entry rebuilders (and Control::wrap_and_sort to control files with relation fields, Uploaders, substitution variables; and random settings to repository documents), records before/after/second application, and TLC evaluates the eight-conjunct property relation of spec/Deb822WrapP.tla on every event.",
         "level_note": "the rebuilders are not modelled as an I-layer: the specification judges observations (P-layer only); relation-valued fields are expected to equal Relations::wrap_and_sort of the value (whose canonical form is C13's subject); paragraph comparators depend only on names and values",
         "stages": [{"kind": "tlc_replay", "name": "wrap_cases", "module": "MCDeb822Wrap.tla", "cfg": "MCDeb822Wrap.cfg", "stage": "wrap", "trace_out": True,
                     "workers": {"quick": 4, "thorough": 8}, "timeout": {"quick": 300, "thorough": 1200},
